@@ -16,6 +16,20 @@ def find_world(name):
     raise KeyError(name)
 
 
+def find_world_in_specs(prop, name):
+    """Worlds are defined by the check specifications (both tiers are searched)."""
+    from . import specs
+    for tier in ("quick", "thorough"):
+        try:
+            sp = specs.get(prop, tier, 0)
+        except Exception:
+            continue
+        for w in sp["worlds"]:
+            if w[0] == name:
+                return w[1]
+    return find_world(name)
+
+
 def replay_doc(doc, verbose=True):
     from .explorer import build, run_leaves, make_transition
     from .judge import judge
@@ -24,7 +38,7 @@ def replay_doc(doc, verbose=True):
     if doc.get("engine") and doc["engine"] != "explorer":
         from . import standalone
         return standalone.replay(doc, verbose)
-    wspec = doc.get("world_spec") or find_world(doc["world"])
+    wspec = doc.get("world_spec") or find_world_in_specs(doc["property"], doc["world"])
     hist = doc["history"]
     D = doc.get("D", 6)
     w0, m0 = build(wspec, hist[:-1], D)
